@@ -387,7 +387,7 @@ fn get_many_op(&mut self, a: &[u64; crate::case::MAX_ARGS]) -> Result<(), Bad> {
             if p.downcast_ref::<Injected>().is_some() {
                 std::panic::resume_unwind(p);
             }
-            std::mem::forget(p);
+            drop(p);
             if !must_panic {
                 let msg = world::last_panic_message().unwrap_or_default();
                 bad!("C15", "get_many_mut-spurious-panic", "get_many_mut({:?}) panicked without two requests for the same entry: {msg}", ids);
@@ -877,7 +877,7 @@ pub fn faulted_step(&mut self, step: usize, op: &Op) -> Result<(), Violation> {
         }
         Err(payload) => {
             let injected = payload.downcast_ref::<Injected>().is_some();
-            std::mem::forget(payload);
+            drop(payload);
             if !injected {
                 let msg = world::last_panic_message().unwrap_or_else(|| "<no message>".into());
                 return Err(Violation {
